@@ -342,6 +342,8 @@ func checkC14(c *Ctx, r *Report) {
 
 	// R14d
 	userErrorRule(c, r)
+	ownSourceRule(c, r)
+	walkerPlaceRule(c, r)
 	r.Rule("R14d", "every value built by normalize* carries the options' metadata (shared with C18 R18b)", 12)
 	metaReachesValues(c, r, "R14d")
 }
@@ -850,4 +852,151 @@ func userProvenance(c *Ctx, v0 ssa.Value) []string {
 	}
 	walk(v0, 0)
 	return user
+}
+
+// ownSourceRule (R14g): where a function has the setting at fault in hand — castArr its parameter, reifyGetField the
+// result of the lookup — the source named in the error is that setting's own (`.meta()` of it), not the metadata of
+// the configuration that holds it: after a Merge the two differ (the reference or the explicit null came from b.yml,
+// the enclosing section from a.yml). The container's metadata is right only for a setting that is missing.
+func ownSourceRule(c *Ctx, r *Report) {
+	r.Rule("R14g", "castArr and reifyGetField report a setting they have in hand with that setting's own metadata, not with the metadata of the configuration around it", 4)
+	type site struct {
+		fn     *ssa.Function
+		inHand func(v ssa.Value) bool
+	}
+	var sites []site
+	if fn := c.Func("", "castArr"); fn != nil {
+		var p *ssa.Parameter
+		for _, q := range fn.Params {
+			if isNamed(q.Type(), modPath, "value") {
+				p = q
+			}
+		}
+		sites = append(sites, site{fn, func(v ssa.Value) bool {
+			for _, s := range append(Sources(v), v) {
+				if s == ssa.Value(p) {
+					return true
+				}
+			}
+			return false
+		}})
+	}
+	if fn := c.Func("", "reifyGetField"); fn != nil {
+		sites = append(sites, site{fn, func(v ssa.Value) bool {
+			for _, s := range append(Sources(v), v) {
+				if e, ok := s.(*ssa.Extract); ok && e.Index == 0 {
+					if call, ok := e.Tuple.(*ssa.Call); ok && calledName(call) == "GetValue" {
+						return true
+					}
+				}
+			}
+			return false
+		}})
+	}
+	for _, st := range sites {
+		name := c.FnName(st.fn)
+		for _, ci := range CallsIn(st.fn, true) {
+			g := ci.Common().StaticCallee()
+			if g == nil || g.Pkg != c.SSA[""] || !strings.HasPrefix(g.Name(), "raise") {
+				continue
+			}
+			metaI, cfgI := -1, -1
+			for i, prm := range g.Params {
+				if isNamed(prm.Type(), modPath, "Meta") {
+					metaI = i
+				}
+				if typeStr(prm.Type()) == "*ucfg.Config" {
+					cfgI = i
+				}
+			}
+			what := "source of " + g.Name()
+			switch {
+			case metaI >= 0:
+				own := false
+				for _, s := range append(Sources(ci.Common().Args[metaI]), ci.Common().Args[metaI]) {
+					call, ok := s.(*ssa.Call)
+					if !ok || calledName(call) != "meta" {
+						continue
+					}
+					recv := call.Call.Value
+					if !call.Call.IsInvoke() {
+						// a concrete node (ref.meta() with ref the asserted *cfgDynamic): through the embedded primitive
+						recv = call.Call.Args[0]
+						for {
+							if fa, isFA := recv.(*ssa.FieldAddr); isFA {
+								recv = fa.X
+								continue
+							}
+							break
+						}
+					}
+					if st.inHand(recv) {
+						own = true
+					}
+				}
+				r.Check(own, "R14g", name, what, c.Pos(ci.Pos()), "the metadata is (or can be) meta() of the setting in hand", "the error names the source of the enclosing configuration although the setting at fault is in hand: after a Merge of a second file the message points to the wrong file (an unresolvable reference or an explicit null from b.yml is reported with source a.yml)")
+			case cfgI >= 0:
+				r.Bad("R14g", name, what, c.Pos(ci.Pos()), g.Name()+" takes the source from a configuration, not from the setting in hand: after a Merge of a second file the message points to the wrong file")
+			}
+		}
+	}
+}
+
+// walkerPlaceRule (R14h): the walkers of a path (the methods of cfgPath) report a failure at the node the walk has
+// reached. An error raised from the configuration the walk *started* from names only the last step below that start:
+// Int("a.zz.b") said "missing field accessing 'zz'" instead of 'a.zz', and through a child handle even a setting that
+// is not on the way ('a.b' for n.b below a). No raise* call in a walker receives the walker's *Config parameter, as it
+// is or wrapped into a node on the spot; the cursor of the walk (a phi that starts there) is what names the place.
+func walkerPlaceRule(c *Ctx, r *Report) {
+	r.Rule("R14h", "the walkers of a path raise their errors at the node the walk has reached, never at the configuration it started from", 3)
+	for _, fn := range c.SrcFuncs() {
+		if fn.Pkg != c.SSA[""] || fn.Signature.Recv() == nil || !isNamed(fn.Signature.Recv().Type(), modPath, "cfgPath") {
+			continue
+		}
+		var start *ssa.Parameter
+		for _, p := range fn.Params {
+			if typeStr(p.Type()) == "*ucfg.Config" {
+				start = p
+			}
+		}
+		if start == nil {
+			continue
+		}
+		name := c.FnName(fn)
+		for _, ci := range CallsIn(fn, true) {
+			g := ci.Common().StaticCallee()
+			if g == nil || g.Pkg != c.SSA[""] || !strings.HasPrefix(g.Name(), "raise") {
+				continue
+			}
+			bad := ""
+			for _, a := range ci.Common().Args {
+				if _, isPhi := a.(*ssa.Phi); isPhi {
+					continue
+				}
+				if a == ssa.Value(start) {
+					bad = "the *Config the walk started from"
+					continue
+				}
+				// cfgSub{cfg} built for the call
+				if mi, ok := a.(*ssa.MakeInterface); ok {
+					for _, s := range append(Sources(mi.X), mi.X) {
+						if ld, isLd := s.(*ssa.UnOp); isLd && ld.Op == token.MUL {
+							if al, isAl := ld.X.(*ssa.Alloc); isAl {
+								for _, ref := range *al.Referrers() {
+									if fa, isFA := ref.(*ssa.FieldAddr); isFA {
+										for _, r2 := range *fa.Referrers() {
+											if st, isSt := r2.(*ssa.Store); isSt && st.Val == ssa.Value(start) {
+												bad = "a node made on the spot from the *Config the walk started from"
+											}
+										}
+									}
+								}
+							}
+						}
+					}
+				}
+			}
+			r.Check(bad == "", "R14h", name, "place of "+g.Name(), c.Pos(ci.Pos()), "raised at the cursor of the walk", "the error is raised at "+bad+": its path is the name of the last step below the start of the walk, not the path of the setting (Int(\"a.zz.b\") reports 'zz'; through a child handle a setting that is not even on the way)")
+		}
+	}
 }
